@@ -686,6 +686,33 @@ class SymInt:
         return repr(s)
 
 
+def _defer_foreign_operands(cls):
+    """like int: a binary operator whose other operand is an object of a foreign class (a LinComb, an Array, ...) answers
+    NotImplemented, so that Python tries the other operand's reflected method"""
+    import functools
+    own = (int, bool, float)
+    names = ["add", "sub", "mul", "floordiv", "mod", "divmod", "truediv", "pow", "lshift", "rshift", "and", "or", "xor"]
+    for nm in names:
+        for pre in ("__", "__r"):
+            meth = cls.__dict__.get(pre + nm + "__")
+            if meth is None:
+                continue
+
+            def wrap(meth):
+                @functools.wraps(meth)
+                def f(s, o, *rest):
+                    to = type(o)
+                    if to not in own and to not in (SymInt, SymBool, SymReal):
+                        return NotImplemented
+                    return meth(s, o, *rest)
+                return f
+            setattr(cls, pre + nm + "__", wrap(meth))
+    return cls
+
+
+_defer_foreign_operands(SymInt)
+
+
 def sym_bitop(a, b, kind, W=None):
     """a OP b for two symbolic integers, defined on the low W bits of both (exact when both fit W bits, >=0);
     the high parts are combined only when both are zero, otherwise Unsupported is avoided by an axiom-free
